@@ -6,6 +6,10 @@ props = [json.loads(l) for l in open(os.path.join(V, 'properties.jsonl'))]
 
 # id -> (level, engine, technique, level text, level note, design_ref)
 CHECKS = {
+ 'C07': ('model_checking', 'E2-seq', 'explicit enumeration of store histories x every page size x list concurrency through the real list functions, set model + cross-page-size differential + documented-order oracle',
+         'For every enumerated history (repo subsets with prefix-related names; bundles with an interrupted upload at every position; label sets x prefix filters; diamonds x splits x index files x generations x states x user-supplied IDs) every list function and Apply variant is run with EVERY page size from 1 to the number of keys under the scanned prefix + 1 (so every page boundary is hit) and 1024, at concurrency 1/2/32.',
+         'Object counts are small (<=5 bundles, <=3 diamonds x 3 splits); extra index files are injected as keys; fake clock and seeded KSUIDs make key order deterministic.',
+         'DESIGN.md §3 C07'),
  'C04': ('exploration', 'E2-seq', 'bounded-exhaustive product over small trees / key lists / configurations through the real upload and download code, reference-key and byte-for-byte oracles',
          'All subsets of <=4 (quick 3) paths from an 8-path universe (nested, spaces, unicode, dots, generated-path decoys) x rotated size/content assignments x leaf sizes x concurrency x entries-per-index-file; every subset predicate and every single-file download per bundle; all key lists of length <=3 over {a,b,missing} x skip-missing; index-file boundary counts via the public API.',
          'Sizes/contents are assigned by rotation (every file sees every variant) rather than a full per-file product; blob, metadata stores are the reference store; localfs on a rooted MemMapFs.',
